@@ -55,7 +55,7 @@ WRAP = {  # expression of type T converted to the type a position needs
     ("bool", "string"): "boolToString(%s)", ("bool", "int"): "stringToInt(boolToString(%s))", ("bool", "float"): "stringToFloat(boolToString(%s))",
 }
 
-POSITIONS = [("input.tag", "string"), ("input.n", "int"), ("input.f", "float"), ("input.b", "bool"), ("input.a", "any"), ("enabled", "bool"), ("stop_if", "bool"),
+POSITIONS = [("input.a.wait-optional", "any"), ("input.a.soft-optional", "any"), ("output.wait-optional", "any"), ("output.soft-optional", "any"), ("input.tag", "string"), ("input.n", "int"), ("input.f", "float"), ("input.b", "bool"), ("input.a", "any"), ("enabled", "bool"), ("stop_if", "bool"),
              ("deploy.tag", "string"), ("wait_for", "any"), ("closure_wait_timeout", "int"), ("output", "any"), ("foreach.items.tag", "string"), ("foreach.parallelism", "int")]
 
 
@@ -67,6 +67,20 @@ def typed(expr, have, want):
 
 def fault_case(fclass, ftype, fexpr, overrides, pos, ptype):
     e = Expr(typed(fexpr, ftype, ptype))
+    if pos.endswith("-optional"):
+        opt = Opt(typed(fexpr, ftype, ptype), pos.endswith("wait-optional"))
+        pos = pos.rsplit(".", 1)[0]
+        if pos == "input.a":
+            b = gen.plugin_step("b", Expr(In("tag")), extra_input={"a": {"x": opt}})
+            a = gen.plugin_step("a", Expr(In("tag")), extra_input={"n": Expr(In("n"))})
+            prog = Program([a, b], {"success": {"b": gen.tagref("b"), "a": gen.tagref("a")}}, C07_INPUT)
+        else:
+            a = gen.plugin_step("a", Expr(In("tag")), extra_input={"n": Expr(In("n"))})
+            prog = Program([a], {"success": {"v": {"x": opt}, "a": gen.tagref("a")}}, C07_INPUT)
+        inp = {"tag": "T1"}
+        inp.update(overrides)
+        kind = "wait" if opt.wait else "soft"
+        return {"program": prog, "scripts": gen.make_scripts(prog.steps, {}), "input": inp, "shape": "%s@%s.%s-optional" % (fclass, pos, kind), "outcome": {}, "fault": (fclass, pos + "." + kind + "-optional")}
     a = gen.plugin_step("a", Expr(In("tag")), extra_input={"n": Expr(In("n"))})
     steps = [a]
     outs = {}
@@ -144,6 +158,15 @@ def run(check):
         for (pos, ptype) in POSITIONS:
             gs.append(fault_case(fclass, ftype, fexpr, ov, pos, ptype))
     gs += misbehaving_cases(check)
+    for rep in range(check.pick(6, 40)):
+        for par in (8, 64):
+            sub = gen.sub_program("sub.yaml", 1)
+            fe = Step("loop", "foreach", sub=sub, items=Expr(In("items")), parallelism=par)
+            prog = Program([fe], {"success": {"d": Expr(Ref("loop", "outputs", "success", "data"))}, "failed": {"e": Expr(Ref("loop", "failed", "error"))}}, gen.BASE_INPUT)
+            scripts = gen.make_scripts([fe], {})
+            scripts["sub_w0"]["exec"] = {"outcome": "crash"}
+            gs.append({"program": prog, "scripts": scripts, "input": {"tag": "T", "items": [{"tag": "i%d" % k} for k in range(64)]}, "shape": "foreach-64-items-all-crash/par%d" % par,
+                       "outcome": {}, "fault": ("many-failing-items-in-parallel", "foreach par=%d rep=%d" % (par, rep))})
     items = []
     for i, g in enumerate(gs):
         prog = g["program"]
